@@ -4,7 +4,10 @@ odd spacing in every legal position) and mutator (invalid variants).
 A program is first produced as a list of atoms:
     ("T", text)      a token
     ("G", policy)    the gap between two tokens:
-        "tight"  nothing may be inserted (inside route paths / @server values after '/')
+        "tight"  blanks only, no comment (directly after the '/' of a route path the parser
+                 rejects a comment on the same line)
+        "glue"   inside a route path / @server value / "name-api": conventionally nothing, but
+                 blanks, comments and line breaks are legal
         "same"   must stay on one line (the grammar is line sensitive there)
         "nl"     must contain a line break (idem)
         "any-s"  free; conventional layout keeps it on one line
@@ -26,8 +29,10 @@ WORDS = ["user", "order", "item", "id", "name", "list", "get", "info", "x1", "v1
 class Gen:
     def __init__(self, rng, opts=None):
         self.r = rng
-        self.o = dict(percent=False, f10=False, empties=True, adjacent=False, maxstmts=7,
-                      emptydoc=False, svc_comment=False, multi_indent=False, empty_after_import=False)
+        self.o = dict(percent=False, f10=True, empties=True, adjacent=False, maxstmts=7,
+                      emptydoc=False, svc_comment=False, multi_indent=False, empty_after_import=False,
+                      strws=False, glue=True, cmt_tab=False)
+        self.svcnames = []
         if opts:
             self.o.update(opts)
         self.a = []
@@ -72,6 +77,12 @@ class Gen:
         s = " ".join(parts) if r.random() < 0.7 else "".join(parts)
         if self.o["percent"] and r.random() < 0.5:
             s += r.choice(["100%", "%d", "50% off", "%"])
+        if r.random() < 0.03:
+            s += "x" * r.choice([80, 200, 600])        # a very long line
+        if r.random() < 0.05:
+            s += r.choice(["日本語", "é", "\\n", "\\", "'", "`", "@doc", "}", "µs", "\u00a0", "\u2028"])
+        if self.o["strws"] and r.random() < 0.3:
+            s += r.choice(["a\tb", "\t", "x \n y", "x\n  y", "x  \ny"])
         if not s and not (self.o["empties"] and r.random() < 0.3):
             s = "v"
         return '"' + s + '"'
@@ -85,7 +96,15 @@ class Gen:
         if r.random() < 0.2:
             s += ' validate:"required"'
         if self.o["percent"] and r.random() < 0.3:
-            s += ' fmt:"%d"'
+            s += r.choice([' fmt:"%d"', ' x:"100%"', '%'])
+        if r.random() < 0.06:
+            # characters next to the back quotes, unicode, things that look like other tokens
+            s = r.choice([" ", "", '"', "//", "/*", "*/", "é", "日本", "\\", "{", "@handler"]) + s + \
+                r.choice([" ", "", '"', "//", "*/", "é", "}", "\\"])
+        if r.random() < 0.02:
+            s += ' d:"' + "y" * r.choice([100, 400]) + '"'
+        if self.o["strws"] and r.random() < 0.25:
+            s += r.choice(["\tk:\"v\"", "\n k:\"v\"", " \nk:\"v\"", "\n\tk:\"v\""])
         return "`" + s + "`"
 
     # ---- grammar -------------------------------------------------------------
@@ -212,10 +231,10 @@ class Gen:
         elif x < 0.82:
             self.t("map", gap)
             self.t("[")
-            if r.random() < 0.9:
+            if r.random() < 0.8:
                 self.t(r.choice(["string", "int", "int64", self.tref()]))
             else:
-                self.dtype(depth + 2, nostruct=True)
+                self.dtype(depth + 1, nostruct=True)
             self.t("]")
             self.dtype(depth + 1, nostruct=nostruct)
         elif x < 0.92:
@@ -262,6 +281,15 @@ class Gen:
                     self.t(self.rawstring())
         self.t("}", "nl" if must_nl else "any-n")
 
+    def duration(self):
+        """a DURATION token of scanner.go: units in the order h m s ms µs ns, each at most once,
+        digits before every unit (1h30m, 100ms, 1s500ms, 2µs, 1m5s10ms3µs7ns ...)"""
+        r = self.r
+        units = ["h", "m", "s", "ms", "µs", "ns"]
+        k = r.choice([1, 1, 1, 2, 2, 3, 6])
+        idx = sorted(r.sample(range(6), k))
+        return "".join(str(r.choice([0, 1, 5, 30, 100, 1500])) + units[i] for i in idx)
+
     def svalue(self):
         """@server value"""
         r = self.r
@@ -271,9 +299,9 @@ class Gen:
         elif x < 0.35:
             self.t(self.string())
         elif x < 0.43:
-            self.t(r.choice(["1", "1024", "0"]))
+            self.t(r.choice(["1", "1024", "0", "007", "18446744073709551616"]))
         elif x < 0.53:
-            self.t(r.choice(["3s", "100ms", "1m", "2h", "1h30m", "5ns", "1m5s"]))
+            self.t(self.duration())
         elif x < 0.63:
             self.t(self.ident())
             for _ in range(r.randint(1, 3)):
@@ -282,18 +310,18 @@ class Gen:
         elif x < 0.73:
             self.t(self.ident())
             for _ in range(r.randint(1, 3)):
-                self.t("-", "tight")
-                self.t(self.ident(), "tight")
+                self.t("-", "glue")
+                self.t(self.ident(), "glue")
         else:
             lead = r.random() < 0.5
             if lead:
                 self.t(self.ident())
             for i in range(r.randint(0 if lead else 1, 3)):
-                self.t("/", "tight" if (lead or i > 0) else None)
-                self.t(self.ident(), "tight")
+                self.t("/", "glue" if (lead or i > 0) else None)
+                self.t(self.ident(), "glue")
                 if r.random() < 0.2:
-                    self.t("-", "tight")
-                    self.t(self.ident(), "tight")
+                    self.t("-", "glue")
+                    self.t(self.ident(), "glue")
 
     def s_service(self):
         r = self.r
@@ -301,18 +329,28 @@ class Gen:
             self.t("@server")
             self.t("(")
             n = r.choice([0, 1, 2, 3, 4]) if self.o["empties"] else r.randint(1, 4)
+            allzero = self.o["empties"] and r.random() < 0.08      # a block the formatter deletes
             for _ in range(n):
                 self.t(r.choice(["group", "prefix", "jwt", "middleware", "timeout", "maxBytes", "summary", self.ident()]), "any-n")
                 self.t(":")
-                self.svalue()
+                if allzero:
+                    self.t('""')
+                else:
+                    self.svalue()
             self.t(")", "any-n")
             self.t("service", "any-n")
         else:
             self.t("service")
-        self.t(self.ident())
-        if r.random() < 0.5:
-            self.t("-", "tight")
-            self.t("api", "tight")
+        # several service blocks of one file usually carry the same name
+        if self.svcnames and r.random() < 0.6:
+            name, api = r.choice(self.svcnames)
+        else:
+            name, api = self.ident(), r.random() < 0.5
+            self.svcnames.append((name, api))
+        self.t(name)
+        if api:
+            self.t("-", "glue")
+            self.t("api", "glue")
         self.t("{")
         nitems = r.choice([0, 1, 1, 2, 3, 4])
         for _ in range(nitems):
@@ -323,7 +361,7 @@ class Gen:
     def body(self, gap=None, nonempty=False):
         r = self.r
         self.t("(", gap)
-        if self.o["empties"] and not nonempty and r.random() < 0.06:
+        if self.o["empties"] and not nonempty and r.random() < 0.12:
             self.t(")")
             return
         if r.random() < 0.25:
@@ -340,17 +378,18 @@ class Gen:
         self.t("/")
         for i in range(nseg):
             if i > 0:
-                self.t("/", "tight")
-            if r.random() < 0.25:
+                self.t("/", "glue")
+            colon = r.random() < 0.25
+            if colon:
                 self.t(":", "tight")
-            self.t(r.choice(["1", "42"]) if r.random() < 0.07 else self.pident(), "tight")
+            self.t(r.choice(["1", "42", "2024"]) if r.random() < 0.07 else self.pident(), "glue" if colon else "tight")
             while r.random() < 0.2:
-                self.t("-", "tight")
-                self.t(self.pident(), "tight")
+                self.t("-", "glue")
+                self.t(self.pident(), "glue")
             if self.o["adjacent"] and r.random() < 0.3:
                 self.t(self.ident(), "same")
         if nseg > 0 and r.random() < 0.07:
-            self.t("/", "tight")   # trailing slash
+            self.t("/", "glue")   # trailing slash
 
     def item(self):
         r = self.r
@@ -367,18 +406,18 @@ class Gen:
         self.t(self.ident())
         self.t(r.choice(HTTP), "any-n")
         self.path()
-        # gap after the last token of the path, before '(' or 'returns': a comment there is
-        # finding F10; it is generated only when opts["f10"] is set
-        after_path = "f10" if (self.o["f10"] and r.random() < 0.35) else "path-end"
+        # gap after the last token of the path, before '(' or 'returns': often a comment and a
+        # line break (the repaired finding F10), whatever follows -- also an empty "()"
+        after_path = "path-end"
         x = r.random()
         if x < 0.75:
-            self.body(after_path, nonempty=(after_path == "f10"))
+            self.body(after_path)
             if r.random() < 0.7:
-                self.t("returns")
-                self.body()
+                self.t("returns", "route")
+                self.body("route")
         elif x < 0.9:
             self.t("returns", after_path)
-            self.body()
+            self.body("route")
         if r.random() < 0.08:
             self.t(";")
 
@@ -389,13 +428,16 @@ CWORDS = ["c1", "todo", "note: x", "see /a/b", "αβ", "a*b", "x = y", "{", "}",
 
 
 class Deco:
-    def __init__(self, rng, odd=0.15, pc=0.15, percent=False, inline=1, multi_indent=False):
+    def __init__(self, rng, odd=0.15, pc=0.15, percent=False, inline=1, multi_indent=False, f10=True, glue=True, cmt_tab=False):
         self.r = rng
         # 0: comments only at conventional line ends / on their own lines between elements
         # 1: + single-line block comments between tokens of one line
         # 2: + line comments / line breaks with comments inside constructs printed on one line
         self.inline = int(inline)
         self.multi_indent = multi_indent
+        self.f10 = f10
+        self.o_glue = glue
+        self.cmt_tab = cmt_tab
         self.odd = odd     # probability of an unconventional layout in a free gap
         self.pc = pc       # comment density
         self.percent = percent
@@ -407,6 +449,10 @@ class Deco:
         s = r.choice(CWORDS) + (" %d" % self.nc)
         if self.percent and r.random() < 0.4:
             s += r.choice([" 100%", " %s", " 5% d"])
+        if self.cmt_tab and r.random() < 0.3:
+            s += r.choice(["\t", "\tx", " \t ", "\t\t", "  ", "   "])
+        elif r.random() < 0.05:
+            s += " "          # a trailing blank
         return s
 
     def line_comment(self):
@@ -504,20 +550,24 @@ class Deco:
             d = depth_after(atoms, i)
             indent = "\t" * d if r.random() < 0.9 else "  " * d
             if v == "tight":
-                out.append("")
+                out.append("" if r.random() < 0.93 or needs_space(prev, nxt) else r.choice([" ", "\t", "  "]))
+            elif v == "glue":
+                if not self.o_glue or r.random() < 0.85:
+                    out.append(" " if needs_space(prev, nxt) else "")
+                elif r.random() < self.odd and self.inline >= 2:
+                    out.append(self.newline(indent, comments=True))
+                else:
+                    out.append(self.same(allow_empty=not needs_space(prev, nxt)))
             elif v == "same":
                 out.append(self.same())
             elif v == "nl":
                 out.append(self.newline(indent))
             elif v == "nocomment":
                 out.append(r.choice(["", " ", "\n", "\n\n", " \n\t"]))
-            elif v == "f10":
-                # finding F10: a comment right after the route path, then a line break
+            elif v == "path-end" and self.f10 and r.random() < 0.3:
+                # (repaired finding F10) a comment right after the route path, then a line break
                 out.append((self.ws() or " ") + (self.line_comment() if r.random() < 0.6 else self.block()) + "\n" + indent)
-            elif v == "path-end":
-                # after the last token of a route path: never a comment (finding F10); blanks only
-                out.append(r.choice([" ", " ", "  ", "\t"]))
-            elif v == "any-s":
+            elif v in ("any-s", "path-end", "route"):
                 if r.random() < self.odd:
                     out.append(self.newline(indent, comments=self.inline >= 2))
                 else:
@@ -625,9 +675,16 @@ def mutants(rng, src, n):
             a, b = rng.choice(toks)
             c, d = rng.choice(toks)
             s = src[:a] + src[c:d] + src[b:]
-        else:            # duplicate a token
+        elif x < 0.97:   # duplicate a token
             a, b = rng.choice(toks)
             s = src[:b] + " " + src[a:b] + src[b:]
+        elif x < 0.985:  # a comment where the parser forbids one: on the line of a '/' of a route path
+            sl = [e for (a, e) in toks if src[a:e] == "/"]
+            pos = rng.choice(sl) if sl else 0
+            s = src[:pos] + rng.choice([" /* c */", "/**/", " // c\n"]) + src[pos:]
+        else:            # byte order mark / NUL (the scanner's end-of-input mark) / lone CR
+            pos = rng.choice([0, 0, rng.randrange(len(src) + 1)])
+            s = src[:pos] + rng.choice(["\ufeff", "\x00", "\r", "\ufffd", "\x0c"]) + src[pos:]
         if s.strip("\x00 \t\r\n\f\v") == "" or s[0] == "\x00":
             s = "x" + s
         res.append(s)
@@ -636,8 +693,20 @@ def mutants(rng, src, n):
 
 def generate(rng, opts=None, odd=None, pc=None, inline=1):
     g = Gen(rng, opts)
-    atoms = g.program()
     d = Deco(rng, odd=odd if odd is not None else rng.choice([0.0, 0.05, 0.15, 0.3]),
              pc=pc if pc is not None else rng.choice([0.0, 0.05, 0.15, 0.3, 0.45]),
-             percent=g.o["percent"], inline=inline, multi_indent=g.o["multi_indent"])
-    return d.render(atoms)
+             percent=g.o["percent"], inline=inline, multi_indent=g.o["multi_indent"], f10=g.o["f10"], glue=g.o["glue"], cmt_tab=g.o["cmt_tab"])
+    if rng.random() < 0.015:
+        # a file that holds nothing but comments
+        text = ""
+        for _ in range(rng.randint(1, 4)):
+            text += (d.line_comment() if rng.random() < 0.6 else d.block(True)) + rng.choice(["\n", "\n\n", "\n \n"])
+        return text if rng.random() < 0.7 else text.rstrip("\n")
+    text = d.render(g.program())
+    x = rng.random()
+    if x < 0.04:
+        text = text.replace("\r\n", "\n").replace("\n", "\r\n")     # a DOS file
+    elif x < 0.06:
+        # form feed / vertical tab are white space for the scanner
+        text = re.sub(r"\n\n", lambda m: rng.choice(["\n\f\n", "\n\v\n", "\n\n"]), text)
+    return text
